@@ -11,7 +11,7 @@ import itertools
 from simprocesd.model import System, EventType
 from simprocesd.model.factory_floor import Maintainer, Maintainable
 
-from harness.util import pack
+from harness.util import pack, split_by_order
 
 PROPERTY = 'C12'
 T = 10 ** 6
@@ -54,23 +54,27 @@ PAIRS = [('T0', 'a'), ('T0', 'b'), ('T1', 'a'), ('T1', 'b')]
 
 
 def _subs(tier):
-    r = 3 if tier == 'quick' else 4
+    r = 3
+    quick_set = {(0, 0, 1), (0, 1, 0), (0, 2, 0), (0, 2, 1), (0, 1, 2), (0, 2, 2)}
     out = []
     for assign in itertools.product(range(4), repeat=r):
         # symmetry: first request is (T0, a); second is one of (T0,a) (T0,b) (T1,a)
         if assign[0] != 0 or assign[1] == 3:
             continue
-        if tier == 'quick' and r == 3 and assign[2] == 3 and assign[1] != 2:
+        if tier == 'quick' and assign not in quick_set:
             continue
         used = sorted(set(assign))
         params = [['cap', 0, T]]
         for p in used:
-            params += [[f'dur{p}', 0, T], [f'need{p}', 0, T], [f'cost{p}', 0, T]]
-        for i in range(r):
+            params += [[f'dur{p}', 0, T], [f'need{p}', 0, T], [f'cost{p}', 0 if p == 0 else 1, T]]
+        for i in range(1, r):        # the first request is issued at time 0 (nothing can happen before it)
             params.append([f'd{i}', 0, T])
-        for nested in ([False, True] if assign[:2] == (0, 2) and r == 3 else [False]):
-            out.append({'name': 'req-' + ''.join(map(str, assign)) + ('-nested' if nested else ''),
-                        'shape': {'assign': list(assign), 'nested': nested}, 'params': list(params)})
+        for nested in ([False, True] if assign[:2] == (0, 2) and (tier != 'quick' or assign == (0, 2, 1)) else [False]):
+            sub = {'name': 'req-' + ''.join(map(str, assign)) + ('-nested' if nested else ''),
+                   'shape': {'assign': list(assign), 'nested': nested}, 'params': list(params)}
+            # case split: burst or not for the 2nd/3rd request, first order fits or not
+            out += [s for s in split_by_order(sub, [('d1', '0'), ('d2', '0'), (f'need{assign[0]}', 'cap')])
+                    if not s['name'].split('#')[1][0] == 'l' and not s['name'].split('#')[1][1] == 'l']
     return out
 
 
@@ -80,8 +84,8 @@ def jobs(tier):
 
 
 def bounds_text(tier):
-    r = 3 if tier == 'quick' else 4
-    return (f'{r} requests over targets T0, T1 and tags a, b (every assignment up to symmetry), issued at symbolic instants '
+    r = 3
+    return (f'{r} requests over targets T0, T1 and tags a, b (' + ('six assignments' if tier == 'quick' else 'every assignment up to symmetry') + f'), issued at symbolic instants '
             f't0 <= t1 <= ... (equal instants allowed); maintainer capacity, per-(target, tag) duration, needed capacity '
             f'(0 and more than the total included) and cost symbolic ints in [0, 10**6]; one variant issues a request from '
             f'inside a start_work hook; every tie-break order')
@@ -236,7 +240,7 @@ def run(shape, args, ctx):
     t = 0
     n = len(shape['assign'])
     for i in range(n):
-        t = t + args[f'd{i}']
+        t = t + args.get(f'd{i}', 0)
         if shape.get('nested') and i == n - 1:
             # the last request is issued from inside the start_work hook of the first order
             targets['T0'].on_start = lambda i=i: (ctx.goal('request_from_hook'), request(i))
